@@ -14,6 +14,7 @@ import (
 	"strings"
 	"sync"
 	"testing"
+	"time"
 	"unicode/utf8"
 
 	"pgregory.net/rapid"
@@ -24,6 +25,7 @@ import (
 	"verif/internal/mutate"
 	"verif/internal/recipe"
 	"verif/internal/rt"
+	"verif/internal/shrink"
 )
 
 // ---- texts ----
@@ -738,6 +740,11 @@ func TestC15(t *testing.T) {
 				defer mu.Unlock()
 				dec.Draw = nil
 				c := progCase{Name: f, Src: recipe.Text(src), Dec: dec, Seed: seed}
+				if perr != nil || cerr != nil {
+					c.Src = recipe.Text(shrink.Source(src, func(b []byte) bool {
+						return hx.Safe(func() error { return checkProg(progCase{Name: c.Name, Src: recipe.Text(b), Dec: c.Dec, Seed: c.Seed}) }) != nil
+					}, 15*time.Second))
+				}
 				switch {
 				case perr != nil:
 					r.Violate(ckP.Name, c, perr)
